@@ -1,7 +1,740 @@
-//! C32 — not implemented yet (see DESIGN.md section 4).
-use kit::Run;
-use serde_json::Value;
+//! C32 — c2patool never clobbers outputs and its signed files validate.
+//! S-seq over file-system states, level `exploration`: the REAL c2patool binary (built from the repo's working tree by
+//! /verif/tools/build_c2patool.sh) is run on every command line of a finite product and on every PAIR of consecutive
+//! invocations (the second sees whatever the first left behind), each in its own fresh temp directory.
+//!
+//! Oracle (from the property text, nothing more):
+//!  * an invocation WITHOUT -f leaves every path that existed before it byte-identical (files), of the same kind, and —
+//!    for pre-existing directories below the working directory — with no entries added;
+//!  * a sign invocation that exits 0 ("reports the file as signed") leaves an output that the SDK, in-process, reads back
+//!    Valid/Trusted (with the sidecar the tool wrote when the manifest is not embedded).
+//! With -f nothing is demanded of the output paths (force was requested).
+//!
+//! Mutants caught (tools/mutant_run.sh F <diff> C32 quick):
+//!  * /verif/mutants/C32-force-inverted.diff   (`!args.force` -> `args.force` in the sign branch: existing output overwritten without -f)
+//!  * /verif/mutants/C32-folder-no-exists-check.diff (folder mode: existing folder wiped without -f)
 
-pub fn run(_run: &Run, _replay: Option<&Value>) {
-    kit::ev::machinery("C32: check not implemented");
+use std::{
+    collections::BTreeMap,
+    io::Read,
+    path::{Path, PathBuf},
+    process::{Command, Stdio},
+    sync::Mutex,
+    time::{Duration, Instant},
+};
+
+use kit::{
+    fsnap::{self, Node, Snap},
+    par, sdk, Run,
+};
+use serde_json::{json, Value};
+
+const REMOTE_URL: &str = "http://127.0.0.1:9/verif-remote.c2pa";
+const FORMATS: [&str; 3] = ["png", "jpeg", "mp4"];
+
+#[derive(Clone, Copy, PartialEq, Eq, Debug)]
+enum Mode {
+    Sign,
+    Report,
+    Detailed,
+    Ingredient,
+}
+impl Mode {
+    fn name(self) -> &'static str {
+        match self {
+            Mode::Sign => "sign",
+            Mode::Report => "report",
+            Mode::Detailed => "report-detailed",
+            Mode::Ingredient => "ingredient",
+        }
+    }
+    fn parse(s: &str) -> Mode {
+        match s {
+            "sign" => Mode::Sign,
+            "report" => Mode::Report,
+            "report-detailed" => Mode::Detailed,
+            "ingredient" => Mode::Ingredient,
+            _ => kit::ev::machinery(format!("C32 replay: bad mode {s}")),
+        }
+    }
+    fn is_folder(self) -> bool {
+        self != Mode::Sign
+    }
+}
+
+#[derive(Clone, Copy, PartialEq, Eq, Debug)]
+enum PreOut {
+    Absent,
+    File,
+    Dir,
+}
+impl PreOut {
+    fn name(self) -> &'static str {
+        match self {
+            PreOut::Absent => "absent",
+            PreOut::File => "file",
+            PreOut::Dir => "dir",
+        }
+    }
+    fn parse(s: &str) -> PreOut {
+        match s {
+            "absent" => PreOut::Absent,
+            "file" => PreOut::File,
+            "dir" => PreOut::Dir,
+            _ => kit::ev::machinery(format!("C32 replay: bad pre state {s}")),
+        }
+    }
+}
+
+#[derive(Clone, Copy, PartialEq, Eq, Debug)]
+enum Input {
+    /// in.<ext>: the tiny kit asset without a manifest
+    Unsigned,
+    /// signed.<ext>: the same asset signed in-process by the SDK (reads Valid)
+    Signed,
+    /// out.<ext>: whatever a previous invocation produced (may be absent)
+    PrevOut,
+}
+impl Input {
+    fn name(self) -> &'static str {
+        match self {
+            Input::Unsigned => "unsigned",
+            Input::Signed => "signed",
+            Input::PrevOut => "prev-out",
+        }
+    }
+    fn parse(s: &str) -> Input {
+        match s {
+            "unsigned" => Input::Unsigned,
+            "signed" => Input::Signed,
+            "prev-out" => Input::PrevOut,
+            _ => kit::ev::machinery(format!("C32 replay: bad input {s}")),
+        }
+    }
+}
+
+/// One command line.
+#[derive(Clone, Copy, Debug)]
+struct Inv {
+    mode: Mode,
+    input: Input,
+    /// -o names the input path itself ("same as input") instead of out.<ext> / outdir
+    same_as_input: bool,
+    force: bool,
+    sidecar: bool,
+    remote: bool,
+}
+
+/// File-system state before the first invocation (only the dimensions relevant to that invocation vary).
+#[derive(Clone, Copy, Debug)]
+struct Pre {
+    /// state of the path the first invocation names with -o (out.<ext> for sign, outdir for folder modes)
+    out: PreOut,
+    /// a .c2pa sidecar already exists next to the first invocation's output path
+    sidecar: bool,
+}
+
+#[derive(Clone, Debug)]
+struct Case {
+    fmt: &'static str,
+    pre: Pre,
+    invs: Vec<Inv>,
+}
+
+impl Inv {
+    fn to_json(&self) -> Value {
+        json!({"mode": self.mode.name(), "input": self.input.name(), "same_as_input": self.same_as_input,
+               "force": self.force, "sidecar": self.sidecar, "remote": self.remote})
+    }
+    fn from_json(v: &Value) -> Inv {
+        Inv {
+            mode: Mode::parse(v["mode"].as_str().unwrap_or("")),
+            input: Input::parse(v["input"].as_str().unwrap_or("")),
+            same_as_input: v["same_as_input"].as_bool().unwrap_or(false),
+            force: v["force"].as_bool().unwrap_or(false),
+            sidecar: v["sidecar"].as_bool().unwrap_or(false),
+            remote: v["remote"].as_bool().unwrap_or(false),
+        }
+    }
+    fn input_path(&self, ext: &str) -> String {
+        match self.input {
+            Input::Unsigned => format!("in.{ext}"),
+            Input::Signed => format!("signed.{ext}"),
+            Input::PrevOut => format!("out.{ext}"),
+        }
+    }
+    fn output_path(&self, ext: &str) -> String {
+        if self.same_as_input {
+            self.input_path(ext)
+        } else if self.mode.is_folder() {
+            "outdir".to_string()
+        } else {
+            format!("out.{ext}")
+        }
+    }
+    fn args(&self, ext: &str) -> Vec<String> {
+        let mut a = vec![self.input_path(ext)];
+        match self.mode {
+            Mode::Sign => {
+                a.push("-m".into());
+                a.push("m.json".into());
+            }
+            Mode::Report => {}
+            Mode::Detailed => a.push("--detailed".into()),
+            Mode::Ingredient => a.push("--ingredient".into()),
+        }
+        a.push("-o".into());
+        a.push(self.output_path(ext));
+        if self.force {
+            a.push("-f".into());
+        }
+        if self.sidecar {
+            a.push("--sidecar".into());
+        }
+        if self.remote {
+            a.push("-r".into());
+            a.push(REMOTE_URL.into());
+        }
+        a
+    }
+}
+
+impl Case {
+    fn to_json(&self) -> Value {
+        json!({"fmt": self.fmt, "pre_out": self.pre.out.name(), "pre_sidecar": self.pre.sidecar,
+               "invocations": self.invs.iter().map(|i| i.to_json()).collect::<Vec<_>>()})
+    }
+    fn from_json(v: &Value) -> Case {
+        let fmt = FORMATS
+            .iter()
+            .find(|f| Some(**f) == v["fmt"].as_str())
+            .copied()
+            .unwrap_or_else(|| kit::ev::machinery("C32 replay: bad fmt"));
+        Case {
+            fmt,
+            pre: Pre { out: PreOut::parse(v["pre_out"].as_str().unwrap_or("")), sidecar: v["pre_sidecar"].as_bool().unwrap_or(false) },
+            invs: v["invocations"].as_array().map(|a| a.iter().map(Inv::from_json).collect()).unwrap_or_default(),
+        }
+    }
+}
+
+/// Every single invocation together with the pre-states relevant to it (depth 1 space for one format).
+fn first_invocations() -> Vec<(Pre, Inv)> {
+    let mut v = vec![];
+    let bools = [false, true];
+    // sign: output {absent, file, dir, same as input} x -f x --sidecar x existing sidecar x remote
+    for same in bools {
+        let outs: &[PreOut] = if same { &[PreOut::File] } else { &[PreOut::Absent, PreOut::File, PreOut::Dir] };
+        for &out in outs {
+            for pre_sc in bools {
+                for force in bools {
+                    for sidecar in bools {
+                        for remote in bools {
+                            v.push((
+                                Pre { out, sidecar: pre_sc },
+                                Inv { mode: Mode::Sign, input: Input::Unsigned, same_as_input: same, force, sidecar, remote },
+                            ));
+                        }
+                    }
+                }
+            }
+        }
+    }
+    // folder modes: output {absent, file, dir, same as input} x -f x input {signed, unsigned}
+    for mode in [Mode::Report, Mode::Detailed, Mode::Ingredient] {
+        for same in bools {
+            let outs: &[PreOut] = if same { &[PreOut::File] } else { &[PreOut::Absent, PreOut::File, PreOut::Dir] };
+            for &out in outs {
+                for force in bools {
+                    for input in [Input::Signed, Input::Unsigned] {
+                        v.push((
+                            Pre { out, sidecar: false },
+                            Inv { mode, input, same_as_input: same, force, sidecar: false, remote: false },
+                        ));
+                    }
+                }
+            }
+        }
+    }
+    v
+}
+
+/// Every command line usable as a second invocation (no pre-state: it sees what the first left).
+/// `full` = the whole product (68 lines); otherwise a core subset (20 lines): no --remote, folder modes only towards outdir,
+/// sign only from the unsigned input plus forced in-place re-signing of the previous output.
+fn second_invocations(full: bool) -> Vec<Inv> {
+    let mut v = vec![];
+    let bools = [false, true];
+    for input in [Input::Unsigned, Input::PrevOut] {
+        for same in bools {
+            for force in bools {
+                for sidecar in bools {
+                    for remote in bools {
+                        let core = !remote && (input == Input::Unsigned || (same && force));
+                        if full || core {
+                            v.push(Inv { mode: Mode::Sign, input, same_as_input: same, force, sidecar, remote });
+                        }
+                    }
+                }
+            }
+        }
+    }
+    for mode in [Mode::Report, Mode::Detailed, Mode::Ingredient] {
+        for input in [Input::Signed, Input::Unsigned, Input::PrevOut] {
+            for same in bools {
+                for force in bools {
+                    let core = !same && input != Input::Unsigned && (mode != Mode::Detailed || input == Input::Signed);
+                    if full || core {
+                        v.push(Inv { mode, input, same_as_input: same, force, sidecar: false, remote: false });
+                    }
+                }
+            }
+        }
+    }
+    v
+}
+
+struct Tool {
+    bin: PathBuf,
+}
+
+struct Seeds {
+    /// fmt -> (ext, unsigned bytes, signed bytes)
+    by_fmt: BTreeMap<&'static str, (&'static str, Vec<u8>, Vec<u8>)>,
+    certs: Vec<u8>,
+    key: Vec<u8>,
+}
+
+fn build_tool() -> Tool {
+    let out = Command::new("/verif/tools/build_c2patool.sh")
+        .stdin(Stdio::null())
+        .output()
+        .unwrap_or_else(|e| kit::ev::machinery(format!("cannot run build_c2patool.sh: {e}")));
+    if !out.status.success() {
+        kit::ev::machinery(format!("c2patool build failed: {}", String::from_utf8_lossy(&out.stderr)));
+    }
+    let s = String::from_utf8_lossy(&out.stdout);
+    let bin = PathBuf::from(s.lines().last().unwrap_or("").trim());
+    if !bin.is_file() {
+        kit::ev::machinery(format!("c2patool binary not found at {}", bin.display()));
+    }
+    Tool { bin }
+}
+
+fn seeds() -> Seeds {
+    let mut by_fmt = BTreeMap::new();
+    let signer = sdk::fixture_signer("es256");
+    for f in FORMATS {
+        let a = kit::assets::by_name(f);
+        let signed = sdk::sign_simple(signer.as_ref(), a.mime, &a.data, &[]);
+        match sdk::read(sdk::ctx(), a.mime, &signed) {
+            Ok(r) if sdk::state_name(r.validation_state()) != "Invalid" => {}
+            Ok(r) => kit::ev::machinery(format!("C32 seed {f} reads {:?}", r.validation_state())),
+            Err(e) => kit::ev::machinery(format!("C32 seed {f} unreadable: {e:?}")),
+        }
+        by_fmt.insert(f, (a.ext, a.data.clone(), signed));
+    }
+    let rd = |p: &str| std::fs::read(p).unwrap_or_else(|e| kit::ev::machinery(format!("cannot read {p}: {e}")));
+    Seeds { by_fmt, certs: rd("/repo/cli/sample/es256_certs.pem"), key: rd("/repo/cli/sample/es256_private.key") }
+}
+
+const MANIFEST: &str = r#"{
+  "alg": "es256",
+  "private_key": "es256_private.key",
+  "sign_cert": "es256_certs.pem",
+  "claim_generator_info": [{"name": "verif-c32", "version": "1"}],
+  "title": "verif",
+  "assertions": [{"label": "org.verif.note", "data": {"k": "v"}}]
+}"#;
+
+struct Exec {
+    code: Option<i32>,
+    timed_out: bool,
+    stdout: String,
+    stderr: String,
+}
+
+fn run_tool(tool: &Tool, top: &Path, args: &[String]) -> Exec {
+    let w = top.join("w");
+    let mut child = Command::new(&tool.bin)
+        .args(args)
+        .current_dir(&w)
+        .env_clear()
+        .env("PATH", "/usr/bin:/bin")
+        .env("HOME", top.join("home"))
+        .env("XDG_CONFIG_HOME", top.join("home/.config"))
+        .env("TMPDIR", top.join("tmp"))
+        .stdin(Stdio::null())
+        .stdout(Stdio::piped())
+        .stderr(Stdio::piped())
+        .spawn()
+        .unwrap_or_else(|e| kit::ev::machinery(format!("cannot spawn c2patool: {e}")));
+    // outputs are small (a manifest report); read them after exit, with a watchdog for hangs
+    let start = Instant::now();
+    let mut timed_out = false;
+    let status = loop {
+        match child.try_wait() {
+            Ok(Some(s)) => break Some(s),
+            Ok(None) => {
+                if start.elapsed() > Duration::from_secs(120) {
+                    let _ = child.kill();
+                    let _ = child.wait();
+                    timed_out = true;
+                    break None;
+                }
+                std::thread::sleep(Duration::from_millis(2));
+            }
+            Err(e) => kit::ev::machinery(format!("wait failed: {e}")),
+        }
+    };
+    let mut stdout = String::new();
+    let mut stderr = String::new();
+    if let Some(mut o) = child.stdout.take() {
+        let mut b = vec![];
+        let _ = o.read_to_end(&mut b);
+        stdout = String::from_utf8_lossy(&b).into_owned();
+    }
+    if let Some(mut o) = child.stderr.take() {
+        let mut b = vec![];
+        let _ = o.read_to_end(&mut b);
+        stderr = String::from_utf8_lossy(&b).into_owned();
+    }
+    Exec { code: status.and_then(|s| s.code()), timed_out, stdout, stderr }
+}
+
+/// Read a signed output the way a user of the SDK would: embedded manifest, else the .c2pa next to it.
+fn verify_signed(path: &Path) -> Result<String, String> {
+    let first = par::guard(|| c2pa::Reader::from_context(sdk::ctx()).with_file(path));
+    let first = match first {
+        Err(p) => return Err(format!("panic while reading: {p}")),
+        Ok(r) => r,
+    };
+    let reader = match first {
+        Ok(r) => r,
+        Err(e) => {
+            // remote-only reference with fetching disabled, or nothing embedded: use the sidecar the tool wrote
+            let sc = path.with_extension("c2pa");
+            let kind = sdk::err_kind(&e);
+            if (kind == "RemoteManifestUrl" || kind == "JumbfNotFound" || kind == "RemoteManifestFetch") && sc.is_file() {
+                let data = std::fs::read(&sc).map_err(|e| format!("sidecar unreadable: {e}"))?;
+                let fmt = c2pa::format_from_path(path).unwrap_or_default();
+                let mut f = std::fs::File::open(path).map_err(|e| format!("output unreadable: {e}"))?;
+                match par::guard(|| c2pa::Reader::from_context(sdk::ctx()).with_manifest_data_and_stream(&data, &fmt, &mut f)) {
+                    Err(p) => return Err(format!("panic while reading with sidecar: {p}")),
+                    Ok(Err(e)) => return Err(format!("read with sidecar fails: {e:?}")),
+                    Ok(Ok(r)) => r,
+                }
+            } else {
+                return Err(format!("read fails: {e:?}"));
+            }
+        }
+    };
+    let st = sdk::state_name(reader.validation_state());
+    if st == "Invalid" {
+        Err(format!("reads back Invalid: {:?}", kit::canon::codes(&reader)))
+    } else {
+        Ok(st.to_string())
+    }
+}
+
+fn setup(top: &Path, seeds: &Seeds, case: &Case) {
+    let w = top.join("w");
+    for d in ["w", "home/.config", "tmp"] {
+        std::fs::create_dir_all(top.join(d)).unwrap_or_else(|e| kit::ev::machinery(format!("mkdir: {e}")));
+    }
+    let (ext, unsigned, signed) = &seeds.by_fmt[case.fmt];
+    let wr = |name: &str, data: &[u8]| {
+        std::fs::write(w.join(name), data).unwrap_or_else(|e| kit::ev::machinery(format!("write {name}: {e}")))
+    };
+    wr(&format!("in.{ext}"), unsigned);
+    wr(&format!("signed.{ext}"), signed);
+    wr("m.json", MANIFEST.as_bytes());
+    wr("es256_certs.pem", &seeds.certs);
+    wr("es256_private.key", &seeds.key);
+    let first = case.invs[0];
+    let out = first.output_path(ext);
+    if !first.same_as_input {
+        match case.pre.out {
+            PreOut::Absent => {}
+            PreOut::File => wr(&out, b"PRE-EXISTING OUTPUT FILE (must survive without -f)"),
+            PreOut::Dir => {
+                std::fs::create_dir_all(w.join(&out)).unwrap_or_else(|e| kit::ev::machinery(format!("mkdir: {e}")));
+                wr(&format!("{out}/keep.txt"), b"PRE-EXISTING ENTRY (must survive without -f)");
+                wr(&format!("{out}/manifest_store.json"), b"PRE-EXISTING REPORT (must survive without -f)");
+            }
+        }
+    }
+    if case.pre.sidecar {
+        let sc = Path::new(&out).with_extension("c2pa");
+        wr(sc.to_str().unwrap_or("out.c2pa"), b"PRE-EXISTING SIDECAR (must survive without -f)");
+    }
+}
+
+/// What one step did, and whether it broke the property.
+struct StepObs {
+    exit: String,
+    changes: Vec<String>,
+    violations: Vec<(String, String)>,
+    nontrivial: bool,
+    verified: Option<Result<String, String>>,
+    stderr_head: String,
+    stdout_len: usize,
+}
+
+fn classify_path(p: &Path, inv: &Inv, ext: &str) -> &'static str {
+    let out = inv.output_path(ext);
+    let s = p.to_string_lossy();
+    let sc = Path::new(&out).with_extension("c2pa");
+    if *p == *sc {
+        "sidecar"
+    } else if s == out {
+        if inv.same_as_input {
+            "input-as-output"
+        } else if inv.mode.is_folder() {
+            "output-folder"
+        } else {
+            "output"
+        }
+    } else if p.starts_with(&out) {
+        if inv.mode.is_folder() {
+            "output-folder-entry"
+        } else {
+            "output-dir-entry"
+        }
+    } else if s == inv.input_path(ext) {
+        "input"
+    } else {
+        "other"
+    }
+}
+
+fn step(tool: &Tool, top: &Path, fmt: &str, ext: &str, inv: &Inv) -> StepObs {
+    let w = top.join("w");
+    let before: Snap = fsnap::snapshot(&w);
+    let out = inv.output_path(ext);
+    let sc = Path::new(&out).with_extension("c2pa");
+    let state_of = |p: &Path| match before.get(p) {
+        None => "absent",
+        Some(n) => n.kind(),
+    };
+    let out_state = state_of(Path::new(&out));
+    let sc_state = state_of(&sc);
+    // non-trivial: something the invocation may write to is already there
+    let nontrivial = out_state != "absent" || (inv.sidecar && sc_state != "absent");
+    let ex = run_tool(tool, top, &inv.args(ext));
+    let after: Snap = fsnap::snapshot(&w);
+    let exit = if ex.timed_out {
+        "timeout".to_string()
+    } else {
+        match ex.code {
+            Some(0) => "exit0".to_string(),
+            Some(c) => format!("exit{c}"),
+            None => "signal".to_string(),
+        }
+    };
+    let mut violations = vec![];
+    let ctx = format!(
+        "mode={} out={} sidecar_pre={} f={} sidecar={} remote={} input={} fmt={}",
+        inv.mode.name(),
+        if inv.same_as_input { "same-as-input" } else { out_state },
+        sc_state,
+        inv.force as u8,
+        inv.sidecar as u8,
+        inv.remote as u8,
+        inv.input.name(),
+        fmt
+    );
+    if ex.timed_out {
+        kit::ev::machinery(format!("c2patool hung (>120 s) on {:?} [{ctx}]", inv.args(ext)));
+    }
+    if exit == "signal" {
+        violations.push((format!("crash {ctx}"), format!("c2patool died on a signal: {}", head(&ex.stderr))));
+    }
+    if !inv.force {
+        for (p, how) in fsnap::not_preserved(&before, &after) {
+            let what = classify_path(&p, inv, ext);
+            violations.push((
+                format!("clobber what={what} {ctx} how={}", how.split(' ').next().unwrap_or("")),
+                format!("without -f, pre-existing {} `{}` was {how} by `c2patool {}` ({exit})", what, p.display(), inv.args(ext).join(" ")),
+            ));
+        }
+        // entries added below a pre-existing directory (the working directory itself is not an output)
+        for p in after.keys() {
+            if before.contains_key(p) {
+                continue;
+            }
+            let mut anc = p.parent();
+            while let Some(a) = anc {
+                if a.as_os_str().is_empty() {
+                    break;
+                }
+                if matches!(before.get(a), Some(Node::Dir)) {
+                    let what = classify_path(a, inv, ext);
+                    violations.push((
+                        format!("clobber what={what} {ctx} how=entry-added"),
+                        format!("without -f, `{}` was added inside pre-existing directory `{}` by `c2patool {}` ({exit})", p.display(), a.display(), inv.args(ext).join(" ")),
+                    ));
+                    break;
+                }
+                anc = a.parent();
+            }
+        }
+    }
+    let mut verified = None;
+    if inv.mode == Mode::Sign && exit == "exit0" {
+        let r = verify_signed(&w.join(&out));
+        if let Err(e) = &r {
+            violations.push((
+                format!("signed-not-valid {ctx}"),
+                format!("`c2patool {}` exited 0 but its output does not validate: {e}", inv.args(ext).join(" ")),
+            ));
+        }
+        verified = Some(r);
+    }
+    StepObs {
+        exit,
+        changes: fsnap::diff(&before, &after),
+        violations,
+        nontrivial,
+        verified,
+        stderr_head: head(&ex.stderr),
+        stdout_len: ex.stdout.len(),
+    }
+}
+
+fn head(s: &str) -> String {
+    let t: String = s.chars().take(300).collect();
+    t.replace('\n', " | ")
+}
+
+/// Run a whole case in a fresh temp dir; returns per-step observations.
+fn run_case(tool: &Tool, seeds: &Seeds, case: &Case) -> Vec<StepObs> {
+    let top = tempfile::Builder::new()
+        .prefix("verif-c32-")
+        .tempdir_in("/tmp")
+        .unwrap_or_else(|e| kit::ev::machinery(format!("tempdir: {e}")));
+    setup(top.path(), seeds, case);
+    let ext = seeds.by_fmt[case.fmt].0;
+    let mut obs = vec![];
+    for inv in &case.invs {
+        obs.push(step(tool, top.path(), case.fmt, ext, inv));
+    }
+    obs
+}
+
+fn summary(obs: &[StepObs]) -> String {
+    obs.iter()
+        .map(|o| {
+            let mut c: Vec<String> = o.changes.clone();
+            c.sort();
+            format!("{}[{}]{}", o.exit, c.join(","), match &o.verified { Some(Ok(s)) => format!(" {s}"), Some(Err(_)) => " NOT-VALID".into(), None => String::new() })
+        })
+        .collect::<Vec<_>>()
+        .join(" ; ")
+}
+
+pub fn run(run: &Run, replay: Option<&Value>) {
+    run.rule("every c2patool command line of the product {sign | report | report --detailed | --ingredient to folder} x output {absent, existing file, existing dir, same as input} x -f x --sidecar x pre-existing .c2pa x --remote (sign), x input {signed, unsigned} (folder modes), for each format; plus every pair (first invocation with its pre-state) x (any second command line). \
+              non-trivial = invocations that start while a path they would write to (output, output folder, sidecar) already exists");
+    run.assume("the binary is built from the repo's working tree by tools/build_c2patool.sh with the default features; it runs with a private HOME/XDG_CONFIG_HOME/TMPDIR, so no user settings are read");
+    run.assume("'reports a file as signed' is taken to mean: a command line with a manifest definition (-m) exits with status 0");
+    run.assume("with -f nothing is demanded of the paths the invocation writes to; unrelated paths are not judged under -f");
+    run.assume("the remote URL points at a closed local port (127.0.0.1:9), so no network is needed; signing credentials are the repo's cli/sample es256 test keys");
+    let tool = build_tool();
+    let seeds = seeds();
+
+    if let Some(c) = replay {
+        let case = Case::from_json(c);
+        run.eval();
+        let ext = seeds.by_fmt[case.fmt].0;
+        let obs = run_case(&tool, &seeds, &case);
+        for (i, (inv, o)) in case.invs.iter().zip(obs.iter()).enumerate() {
+            println!("step {}: c2patool {}", i + 1, inv.args(ext).join(" "));
+            println!("  {} stdout={}B stderr: {}", o.exit, o.stdout_len, o.stderr_head);
+            println!("  fs changes: {:?}", o.changes);
+            if let Some(v) = &o.verified {
+                println!("  output read back: {v:?}");
+            }
+            for (k, w) in &o.violations {
+                println!("  VIOLATES: {w}");
+                run.violation(k.clone(), w.clone(), c.clone());
+            }
+        }
+        return;
+    }
+
+    // own the nondeterminism: the same case twice must give the same observation
+    {
+        let (pre, inv) = first_invocations()[0];
+        let c = Case { fmt: "png", pre, invs: vec![inv, inv] };
+        let a = summary(&run_case(&tool, &seeds, &c));
+        let b = summary(&run_case(&tool, &seeds, &c));
+        if a != b {
+            kit::ev::machinery(format!("C32: nondeterministic baseline:\n {a}\n {b}"));
+        }
+        // and a plain sign must work at all, otherwise nothing below means anything
+        if !a.starts_with("exit0") {
+            kit::ev::machinery(format!("C32: baseline sign does not succeed: {a}"));
+        }
+    }
+
+    let firsts = first_invocations();
+    let seconds = second_invocations(run.tier.is_thorough());
+    let mut cases: Vec<Case> = vec![];
+    for f in FORMATS {
+        for (pre, inv) in &firsts {
+            cases.push(Case { fmt: f, pre: *pre, invs: vec![*inv] });
+        }
+    }
+    let n1 = cases.len();
+    run.space(&format!("single invocations: {} per format x {} formats", firsts.len(), FORMATS.len()), n1 as u64, true);
+    let pair_formats: &[&'static str] = run.tier.pick(&FORMATS[..1], &FORMATS[..]);
+    for f in pair_formats {
+        for (pre, inv) in &firsts {
+            for s in &seconds {
+                cases.push(Case { fmt: f, pre: *pre, invs: vec![*inv, *s] });
+            }
+        }
+    }
+    run.space(
+        &format!("pairs: {} first invocations x {} second command lines x formats {:?}", firsts.len(), seconds.len(), pair_formats),
+        (cases.len() - n1) as u64,
+        true,
+    );
+
+    let samples: Mutex<BTreeMap<String, Value>> = Mutex::new(BTreeMap::new());
+    par::for_each(&cases, |case| {
+        let obs = run_case(&tool, &seeds, case);
+        let ext = seeds.by_fmt[case.fmt].0;
+        for (i, (inv, o)) in case.invs.iter().zip(obs.iter()).enumerate() {
+            // in a pair the first step repeats a single-invocation case already judged; only count and judge the last step
+            if i + 1 != case.invs.len() {
+                continue;
+            }
+            run.eval();
+            let wrote = !o.changes.is_empty();
+            let class = format!(
+                "{} {} {}{}",
+                inv.mode.name(),
+                o.exit,
+                if wrote { "wrote" } else { "no-change" },
+                match &o.verified { Some(Ok(s)) => format!(" {s}"), Some(Err(_)) => " not-valid".into(), None => String::new() }
+            );
+            run.outcome(class.clone());
+            if o.nontrivial {
+                run.nontrivial(format!("{}", case.to_json()));
+            }
+            for (k, w) in &o.violations {
+                run.violation(k.clone(), w.clone(), case.to_json());
+            }
+            let mut g = samples.lock().unwrap();
+            if !g.contains_key(&class) {
+                g.insert(class, json!({"case": case.to_json(), "last_cmd": format!("c2patool {}", inv.args(ext).join(" ")), "exit": o.exit, "fs_changes": o.changes, "stderr": o.stderr_head}));
+            }
+        }
+    });
+    for (_, v) in samples.lock().unwrap().iter() {
+        run.sample(v.clone());
+    }
+    run.extra("binary", json!(tool.bin.display().to_string()));
 }
